@@ -42,7 +42,9 @@ theorem rmLink_files (dry : Bool) (t : Name) (st : World × List Ev) (p d : Path
   split
   · cases dry <;> exact ⟨rfl, rfl⟩
   · split
-    · split <;> exact ⟨rfl, rfl⟩
+    · split
+      · exact ⟨rfl, rfl⟩
+      · cases dry <;> exact ⟨rfl, rfl⟩
     · exact ⟨rfl, rfl⟩
 
 theorem rmTarget_frame (dry : Bool) (t : Name) (st : World × List Ev) (p : Path) :
